@@ -14,6 +14,7 @@
 #[path = "/repo/src/util/mod.rs"] mod util;
 
 #[path = "/repo/src/uploading/sync.rs"] mod sync_alone;
+#[path = "/repo/src/restoring/util.rs"] mod restoring_util;
 
 mod sexp;
 mod h_c18;
@@ -24,6 +25,7 @@ mod h_c10;
 mod h_c06;
 mod h_c20;
 mod h_storage;
+mod h_paths;
 
 use std::io::{self, BufRead, Write};
 
@@ -82,6 +84,8 @@ fn dispatch(v: &Val) -> Val {
         1400 => h_c14::run(&l[1]),
         600 => h_c06::run(&l[1]),
         2000 => h_c20::run(&l[1]),
+        1101 => h_paths::restore_path(&l[1]),
+        1102 => h_paths::tar_path(&l[1]),
         1000 => h_c10::encode(&l[1]),
         1001 => h_c10::decode(&l[1]),
         1002 => h_c10::valid_path(&l[1]),
